@@ -3,7 +3,11 @@ package fam
 import (
 	"fmt"
 	"math/big"
+	"sort"
+	"strconv"
 	"strings"
+
+	channeltypes "github.com/cosmos/ibc-go/v8/modules/core/04-channel/types"
 
 	"cosmossdk.io/math"
 	sdk "github.com/cosmos/cosmos-sdk/types"
@@ -99,7 +103,7 @@ func (wr *worldRunner) runCase(prop string, p profile, r *rng.R, stats map[strin
 					info.shape += "/unbuildable"
 				}
 			}
-			op := world.Op{Kind: "recv", Pkt: pkt}
+			op := world.Op{Kind: "recv", Pkt: pkt, Twin: prop == "C11"}
 			if info.orbiter && r.Chance(p.pFault) {
 				k := r.Intn(9)
 				op.Plan = make([]bool, k+1)
@@ -128,9 +132,21 @@ func (wr *worldRunner) runCase(prop string, p profile, r *rng.R, stats map[strin
 	}
 
 	// fund what the packets need, then take the initial snapshot
+	need := map[[2]string]*big.Int{}
 	for _, pl := range ops {
-		if pl.op.Kind == "recv" && pl.info.denom != "" {
-			wr.topUp(ctx, pl.info.dstChan, pl.info.denom, pl.info.amount)
+		if pl.op.Kind == "recv" && pl.info.denom != "" && pl.info.amount.Sign() > 0 {
+			k := [2]string{pl.info.dstChan, pl.info.denom}
+			if need[k] == nil {
+				need[k] = new(big.Int)
+			}
+			need[k].Add(need[k], pl.info.amount)
+		}
+	}
+	for _, ch := range dstChans {
+		for _, d := range wr.w.Denoms {
+			if n := need[[2]string{ch, d}]; n != nil {
+				wr.topUp(ctx, ch, d, n)
+			}
 		}
 	}
 	before := wr.w.Snap(ctx)
@@ -162,10 +178,10 @@ func (wr *worldRunner) runCase(prop string, p profile, r *rng.R, stats map[strin
 			nontriv = true
 		}
 		if note != "" {
-			fails = append(fails, Failure{What: note + ": " + pl.op.Pkt.ICS.Memo, Sig: "decoder-roundtrip", Case: map[string]any{"memo": pl.op.Pkt.ICS.Memo}})
+			fails = append(fails, Failure{What: note + ": " + pl.op.Pkt.ICS.Memo, Sig: "decoder-roundtrip", Prop: "C15", Case: map[string]any{"memo": pl.op.Pkt.ICS.Memo}})
 		}
 		if obs.WiringDisagrees != "" {
-			fails = append(fails, Failure{What: "the stack as wired and the instrumented instance disagree: " + obs.WiringDisagrees, Sig: "wiring",
+			fails = append(fails, Failure{What: "the stack as wired and the instrumented instance disagree: " + obs.WiringDisagrees, Sig: "wiring", Prop: "corr",
 				Case: map[string]any{"op": describeOp(pl.op, pl.info, obs)}})
 		}
 		fails = append(fails, orc.check(pl.op, pl.info, obs)...)
@@ -259,12 +275,25 @@ type oracle struct {
 	limit       uint32
 	amounts     map[string][2]*big.Int
 	counts      map[string]uint64
+	// statsUnknown: the harness can no longer predict the statistics (a reported difference, or a
+	// transfer under an injected lie); setsReported: a difference was already reported for this case
+	statsUnknown bool
+	setsReported bool
 }
 
 func newOracle(prop string, wr *worldRunner, before world.Snapshot) *oracle {
 	o := &oracle{prop: prop, wr: wr, pausedProto: map[string]bool{}, pausedCC: map[string]bool{}, pausedAct: map[string]bool{},
 		amounts: map[string][2]*big.Int{}, counts: map[string]uint64{}}
 	o.limit = uint32(before.State.Max)
+	for _, a := range before.State.Amounts {
+		in, _ := new(big.Int).SetString(a[4], 10)
+		out, _ := new(big.Int).SetString(a[5], 10)
+		o.amounts[a[0]+"|"+a[1]+"|"+a[2]+"|"+a[3]] = [2]*big.Int{in, out}
+	}
+	for _, c := range before.State.Counts {
+		n, _ := strconv.ParseUint(c[4], 10, 64)
+		o.counts[c[0]+"|"+c[1]+"|"+c[2]+"|"+c[3]] = n
+	}
 	return o
 }
 
@@ -272,8 +301,24 @@ func (o *oracle) bal(sn world.Snapshot, acct int, denom int) *big.Int {
 	return sn.Bals[acct*len(o.wr.w.Denoms)+denom]
 }
 
+var sigProp = map[string]string{
+	"recv-panic": "C14", "msg-panic": "C14",
+	"orbiter-balance-grew": "C01", "orbiter-keeps-funds": "C01",
+	"error-ack-state-changed": "C03", "success-despite-failure": "C03", "success-without-forwarding": "C03",
+	"accepted-foreign-denom": "C16", "fee-accepted-invalid": "C04", "fee-refused-valid": "C04",
+	"nonpositive-out": "C02", "ledger-delta": "C02", "supply-delta": "C02", "other-denom-touched": "C02",
+	"mismatched-route-accepted": "C05", "bridge-request": "C05", "replace-request": "C05",
+	"unauthorized-accepted": "C10", "unauthorized-changed-state": "C10", "refused-msg-changed-state": "C10", "authority-refused": "C10",
+	"paused-destination-forwarded": "C08", "unpaused-destination-refused": "C08", "pause-sets": "C08", "pause-query": "C08",
+	"paused-action-executed": "C09", "unpaused-action-refused": "C09", "action-set": "C09", "action-query": "C09",
+	"stats-fold": "C12", "stats-changed-by-non-transfer": "C12",
+	"passthrough-over-limit-accepted": "C18", "passthrough-within-limit-refused": "C18", "limit-not-in-force": "C18", "passthrough-checked-late": "C18",
+	"prior-balance-changes-outcome": "C11", "prior-balance-not-swept": "C11", "prior-balance-other-denom-moved": "C11",
+	"decoder-roundtrip": "C15",
+}
+
 func (o *oracle) fail(sig, what string, desc string) Failure {
-	return Failure{What: what, Sig: sig, Case: map[string]any{"op": desc}}
+	return Failure{What: what, Sig: sig, Prop: sigProp[sig], Case: map[string]any{"op": desc}}
 }
 
 func (o *oracle) check(op world.Op, info pktInfo, obs world.OpObs) []Failure {
@@ -335,6 +380,8 @@ func (o *oracle) check(op world.Op, info pktInfo, obs world.OpObs) []Failure {
 			}
 		}
 		fs = append(fs, o.checkMoves(op, info, obs, desc)...)
+		fs = append(fs, o.checkGates(op, info, obs, desc)...)
+		fs = append(fs, o.checkPrior(op, info, obs, desc)...)
 	case "msg":
 		if obs.MsgPan != "" {
 			fs = append(fs, o.fail("msg-panic", "message handler panics: "+obs.MsgPan, desc))
@@ -351,7 +398,24 @@ func (o *oracle) check(op world.Op, info pktInfo, obs world.OpObs) []Failure {
 		if !obs.MsgOK && !obs.After.Equal(obs.Before) {
 			fs = append(fs, o.fail("refused-msg-changed-state", "a refused message changed state", desc))
 		}
+		if op.Msg.Signer == sim.Authority && !obs.MsgOK && o.mustSucceed(op.Msg) {
+			fs = append(fs, o.fail("authority-refused", "a valid message signed by the authority was refused: "+obs.MsgErr, desc))
+		}
+		if op.Msg.Kind == "ReplaceDepositForBurn" && op.Msg.Signer == sim.Authority {
+			want := cq.VL(cq.VS("cctpreplace"), cq.VS(sim.OrbiterAddr().String()), cq.VS(string(op.Msg.B[0])), cq.VS(string(op.Msg.B[1])),
+				cq.VS(string(op.Msg.B[2])), cq.VS(string(op.Msg.B[3])))
+			ok := len(obs.Trace) == 1 && cq.VL(obs.Trace[0].V().Items()[:6]...).Equal(want)
+			if !ok {
+				fs = append(fs, o.fail("replace-request", "the deposit replacement did not reach CCTP with exactly the message's fields and the orbiter account as owner", desc))
+			}
+		}
+		if obs.MsgOK {
+			o.applyMsg(op.Msg)
+		}
+	case "query":
+		fs = append(fs, o.checkQuery(op, obs, desc)...)
 	}
+	fs = append(fs, o.checkState(op, info, obs, desc)...)
 	return fs
 }
 
@@ -494,5 +558,393 @@ func (o *oracle) checkMoves(op world.Op, info pktInfo, obs world.OpObs, desc str
 		}
 	}
 	_ = math.ZeroInt
+	return fs
+}
+
+
+// ---------------------------------------------------------------------------------------------
+// the abstract state the harness keeps from observed outcomes (C08, C09, C12, C18)
+// ---------------------------------------------------------------------------------------------
+
+var protoNumber = map[string]int{"PROTOCOL_IBC": 1, "PROTOCOL_CCTP": 2, "PROTOCOL_HYPERLANE": 3, "PROTOCOL_INTERNAL": 4}
+var actionNumber = map[string]int{"ACTION_FEE": 1, "ACTION_SWAP": 2}
+
+func (o *oracle) applyMsg(m world.Msg) {
+	switch m.Kind {
+	case "PauseProtocol":
+		o.pausedProto[m.ID] = true
+	case "UnpauseProtocol":
+		delete(o.pausedProto, m.ID)
+	case "PauseCrossChains":
+		if len(m.IDs) == 0 {
+			o.pausedProto[m.ID] = true
+		}
+		for _, c := range m.IDs {
+			o.pausedCC[m.ID+"|"+c] = true
+		}
+	case "UnpauseCrossChains":
+		if len(m.IDs) == 0 {
+			delete(o.pausedProto, m.ID)
+		}
+		for _, c := range m.IDs {
+			delete(o.pausedCC, m.ID+"|"+c)
+		}
+	case "PauseAction":
+		o.pausedAct[m.ID] = true
+	case "UnpauseAction":
+		delete(o.pausedAct, m.ID)
+	case "UpdateParams":
+		o.limit = m.Max
+	}
+}
+
+// mustSucceed: the message, signed by the authority, has valid content for the abstract state.
+func (o *oracle) mustSucceed(m world.Msg) bool {
+	canon := func(pid int, c string) bool {
+		switch pid {
+		case 2, 3:
+			n, err := strconv.ParseUint(c, 10, 32)
+			return err == nil && strconv.FormatUint(n, 10) == c
+		case 4:
+			return c != "" && len(c) <= 32 && !strings.Contains(c, "\x00")
+		case 1:
+			return channeltypes.IsValidChannelID(c) && len(c) <= 32
+		}
+		return false
+	}
+	switch m.Kind {
+	case "PauseProtocol":
+		_, ok := protoNumber[m.ID]
+		return ok && !o.pausedProto[m.ID]
+	case "UnpauseProtocol":
+		_, ok := protoNumber[m.ID]
+		return ok && o.pausedProto[m.ID]
+	case "PauseCrossChains", "UnpauseCrossChains":
+		pid, ok := protoNumber[m.ID]
+		if !ok || len(m.IDs) > 100 {
+			return false
+		}
+		pausing := m.Kind == "PauseCrossChains"
+		if len(m.IDs) == 0 {
+			return o.pausedProto[m.ID] != pausing
+		}
+		seen := map[string]bool{}
+		for _, c := range m.IDs {
+			if !canon(pid, c) || seen[c] || o.pausedCC[m.ID+"|"+c] == pausing {
+				return false
+			}
+			seen[c] = true
+		}
+		return true
+	case "PauseAction":
+		_, ok := actionNumber[m.ID]
+		return ok && !o.pausedAct[m.ID]
+	case "UnpauseAction":
+		_, ok := actionNumber[m.ID]
+		return ok && o.pausedAct[m.ID]
+	case "UpdateParams":
+		return true
+	}
+	return false
+}
+
+// destination of a payload the harness built
+func destOf(f fwdSpec) (proto string, cp string) {
+	switch f.kind {
+	case "cctp":
+		return "PROTOCOL_CCTP", fmt.Sprint(f.domain)
+	case "hyp":
+		return "PROTOCOL_HYPERLANE", fmt.Sprint(f.domain)
+	}
+	return "PROTOCOL_INTERNAL", "noble"
+}
+
+// checkGates: C08 / C09 / C18 on a packet addressed to the orbiter whose payload the harness built.
+func (o *oracle) checkGates(op world.Op, info pktInfo, obs world.OpObs, desc string) []Failure {
+	var fs []Failure
+	if !world.IsOrbiterFlow(op.Pkt) || info.spec == nil || info.spec.rawMem != nil || info.spec.noFwd || len(op.Plan) > 0 || op.Lie != 0 {
+		return nil
+	}
+	f := info.spec.fwd
+	proto, cp := destOf(f)
+	wantPid := map[string]int32{"cctp": 2, "hyp": 3, "internal": 4}[f.kind]
+	destPaused := f.pid == wantPid && (o.pausedProto[proto] || o.pausedCC[proto+"|"+cp])
+	hasFee := len(info.spec.fees) > 0
+	actPaused := hasFee && o.pausedAct["ACTION_FEE"]
+	over := uint64(len(f.pass)) > uint64(o.limit)
+	if obs.Recv.Success {
+		if destPaused {
+			fs = append(fs, o.fail("paused-destination-forwarded", fmt.Sprintf("a transfer to the paused destination (%s, %s) was executed", proto, cp), desc))
+		}
+		if actPaused {
+			fs = append(fs, o.fail("paused-action-executed", "a payload containing the paused action ACTION_FEE was executed", desc))
+		}
+		if over {
+			fs = append(fs, o.fail("passthrough-over-limit-accepted", fmt.Sprintf("a passthrough payload of %d bytes was accepted with limit %d in force", len(f.pass), o.limit), desc))
+		}
+	} else {
+		if over && len(obs.Trace) > 0 {
+			fs = append(fs, o.fail("passthrough-checked-late", "an oversize passthrough payload was refused only after external calls had been made", desc))
+		}
+		if info.expectOK && !over && !destPaused && !actPaused {
+			sig := "unpaused-destination-refused"
+			switch o.prop {
+			case "C09":
+				sig = "unpaused-action-refused"
+			case "C18":
+				sig = "passthrough-within-limit-refused"
+			case "C04":
+				sig = "fee-refused-valid"
+			}
+			fs = append(fs, o.fail(sig, fmt.Sprintf("a valid transfer to the unpaused destination (%s, %s) with %d passthrough bytes (limit %d) was refused", proto, cp, len(f.pass), o.limit), desc))
+		}
+	}
+	return fs
+}
+
+// checkState: after every operation the exported module state equals the abstract one (C08, C09, C12, C18).
+func (o *oracle) checkState(op world.Op, info pktInfo, obs world.OpObs, desc string) []Failure {
+	var fs []Failure
+	st := obs.After.State
+	// statistics: fold of the successful orbiter transfers
+	if op.Kind == "recv" && obs.Recv.Success && world.IsOrbiterFlow(op.Pkt) && info.denom != "" {
+		var out *big.Int
+		var proto, cp string
+		for _, c := range obs.Trace {
+			switch c.Kind {
+			case "cctp":
+				out, proto, cp = c.Args[1].Big(), "2", c.Args[2].Big().String()
+			case "hyptransfer":
+				out, proto, cp = c.Args[4].Big(), "3", c.Args[2].Big().String()
+			case "banksend":
+				out, proto, cp = c.Args[2].Items()[0].Items()[1].Big(), "4", "noble"
+			}
+		}
+		if out != nil && op.Lie == 0 {
+			k := "1|" + op.Pkt.DstChan + "|" + proto + ":" + cp + "|" + info.denom
+			cur := o.amounts[k]
+			if cur[0] == nil {
+				cur = [2]*big.Int{new(big.Int), new(big.Int)}
+			}
+			o.amounts[k] = [2]*big.Int{new(big.Int).Add(cur[0], info.amount), new(big.Int).Add(cur[1], out)}
+			o.counts["1|"+op.Pkt.DstChan+"|"+proto+"|"+cp]++
+		} else if out != nil {
+			o.statsUnknown = true
+		}
+	}
+	if !o.statsUnknown {
+		got := map[string][2]string{}
+		for _, a := range st.Amounts {
+			got[a[0]+"|"+a[1]+"|"+a[2]+"|"+a[3]] = [2]string{a[4], a[5]}
+		}
+		bad := len(got) != len(o.amounts)
+		for k, v := range o.amounts {
+			if g, ok := got[k]; !ok || g[0] != v[0].String() || g[1] != v[1].String() {
+				bad = true
+			}
+		}
+		gotc := map[string]string{}
+		for _, c := range st.Counts {
+			gotc[c[0]+"|"+c[1]+"|"+c[2]+"|"+c[3]] = c[4]
+		}
+		if len(gotc) != len(o.counts) {
+			bad = true
+		}
+		for k, v := range o.counts {
+			if gotc[k] != fmt.Sprint(v) {
+				bad = true
+			}
+		}
+		if bad {
+			sig := "stats-fold"
+			if !(op.Kind == "recv" && obs.Recv.Success) {
+				sig = "stats-changed-by-non-transfer"
+			}
+			fs = append(fs, o.fail(sig, fmt.Sprintf("dispatch statistics %v / %v differ from the accumulation of the successful transfers %v / %v", st.Amounts, st.Counts, fmtAmounts(o.amounts), o.counts), desc))
+			o.statsUnknown = true
+		}
+	}
+	// pause sets and the limit
+	var wantP []string
+	for name := range o.pausedProto {
+		wantP = append(wantP, fmt.Sprint(protoNumber[name]))
+	}
+	var gotP []string
+	for _, p := range st.Protos {
+		gotP = append(gotP, fmt.Sprint(p))
+	}
+	var wantC, gotC []string
+	for k := range o.pausedCC {
+		parts := strings.SplitN(k, "|", 2)
+		wantC = append(wantC, fmt.Sprint(protoNumber[parts[0]])+"|"+parts[1])
+	}
+	for _, c := range st.CC {
+		gotC = append(gotC, c[0]+"|"+c[1])
+	}
+	var wantA, gotA []string
+	for name := range o.pausedAct {
+		wantA = append(wantA, fmt.Sprint(actionNumber[name]))
+	}
+	for _, a := range st.Actions {
+		gotA = append(gotA, fmt.Sprint(a))
+	}
+	sort.Strings(wantP)
+	sort.Strings(gotP)
+	sort.Strings(wantC)
+	sort.Strings(gotC)
+	sort.Strings(wantA)
+	sort.Strings(gotA)
+	if !o.setsReported {
+		if fmt.Sprint(wantP) != fmt.Sprint(gotP) || fmt.Sprint(wantC) != fmt.Sprint(gotC) {
+			fs = append(fs, o.fail("pause-sets", fmt.Sprintf("paused protocols %v / cross-chains %v differ from the sets the successful messages define: %v / %v", gotP, gotC, wantP, wantC), desc))
+			o.setsReported = true
+		}
+		if fmt.Sprint(wantA) != fmt.Sprint(gotA) {
+			fs = append(fs, o.fail("action-set", fmt.Sprintf("paused actions %v differ from the set the successful messages define: %v", gotA, wantA), desc))
+			o.setsReported = true
+		}
+		if int64(o.limit) != st.Max {
+			fs = append(fs, o.fail("limit-not-in-force", fmt.Sprintf("max passthrough payload size in state is %d, the value most recently set is %d", st.Max, o.limit), desc))
+			o.setsReported = true
+		}
+	}
+	return fs
+}
+
+func fmtAmounts(m map[string][2]*big.Int) string {
+	var ks []string
+	for k := range m {
+		ks = append(ks, k)
+	}
+	sort.Strings(ks)
+	var b strings.Builder
+	for _, k := range ks {
+		fmt.Fprintf(&b, "[%s %s %s]", k, m[k][0], m[k][1])
+	}
+	return b.String()
+}
+
+// checkQuery: the pause / parameter queries report exactly the abstract sets.
+func (o *oracle) checkQuery(op world.Op, obs world.OpObs, desc string) []Failure {
+	var fs []Failure
+	q := op.Q
+	bad := func(sig, what string) { fs = append(fs, o.fail(sig, what, desc)) }
+	switch q.Kind {
+	case "IsProtocolPaused":
+		if _, ok := protoNumber[q.ID]; ok {
+			if obs.QueryE || !obs.QueryV.Equal(cq.VB(o.pausedProto[q.ID])) {
+				bad("pause-query", fmt.Sprintf("IsProtocolPaused(%s) answers %v, the set says %v", q.ID, obs.QueryV.JSON(), o.pausedProto[q.ID]))
+			}
+		}
+	case "IsCrossChainPaused":
+		if _, ok := protoNumber[q.ID]; ok && !obs.QueryE {
+			if !obs.QueryV.Equal(cq.VB(o.pausedCC[q.ID+"|"+q.CP])) {
+				bad("pause-query", fmt.Sprintf("IsCrossChainPaused(%s,%s) answers %v, the set says %v", q.ID, q.CP, obs.QueryV.JSON(), o.pausedCC[q.ID+"|"+q.CP]))
+			}
+		}
+	case "PausedCrossChains":
+		if _, ok := protoNumber[q.ID]; ok && !obs.QueryE {
+			var want []string
+			for k := range o.pausedCC {
+				parts := strings.SplitN(k, "|", 2)
+				if parts[0] == q.ID {
+					want = append(want, parts[1])
+				}
+			}
+			sort.Strings(want)
+			if !obs.QueryV.Equal(cq.VStrs(want)) {
+				bad("pause-query", fmt.Sprintf("PausedCrossChains(%s) answers %v, the set is %v", q.ID, obs.QueryV.JSON(), want))
+			}
+		}
+	case "PausedProtocols":
+		var want []int
+		for name := range o.pausedProto {
+			want = append(want, protoNumber[name])
+		}
+		sort.Ints(want)
+		l := make([]cq.V, len(want))
+		for i, x := range want {
+			l[i] = cq.VZ(int64(x))
+		}
+		if obs.QueryE || !obs.QueryV.Equal(cq.VL(l...)) {
+			bad("pause-query", fmt.Sprintf("PausedProtocols answers %v, the set is %v", obs.QueryV.JSON(), want))
+		}
+	case "IsActionPaused":
+		if _, ok := actionNumber[q.ID]; ok {
+			if obs.QueryE || !obs.QueryV.Equal(cq.VB(o.pausedAct[q.ID])) {
+				bad("action-query", fmt.Sprintf("IsActionPaused(%s) answers %v, the set says %v", q.ID, obs.QueryV.JSON(), o.pausedAct[q.ID]))
+			}
+		}
+	case "PausedActions":
+		var want []int
+		for name := range o.pausedAct {
+			want = append(want, actionNumber[name])
+		}
+		sort.Ints(want)
+		l := make([]cq.V, len(want))
+		for i, x := range want {
+			l[i] = cq.VZ(int64(x))
+		}
+		if obs.QueryE || !obs.QueryV.Equal(cq.VL(l...)) {
+			bad("action-query", fmt.Sprintf("PausedActions answers %v, the set is %v", obs.QueryV.JSON(), want))
+		}
+	case "Params":
+		if obs.QueryE || !obs.QueryV.Equal(cq.VZ(int64(o.limit))) {
+			bad("limit-not-in-force", fmt.Sprintf("Params answers %v, the value most recently set is %d", obs.QueryV.JSON(), o.limit))
+		}
+	}
+	return fs
+}
+
+// checkPrior: C11 — the same packet on the same state with an emptied orbiter account.
+func (o *oracle) checkPrior(op world.Op, info pktInfo, obs world.OpObs, desc string) []Failure {
+	var fs []Failure
+	if obs.Twin == nil || len(op.Plan) > 0 || op.Lie != 0 {
+		return nil
+	}
+	tw := obs.Twin
+	nd := len(o.wr.w.Denoms)
+	hadPrior := false
+	for d := 0; d < nd; d++ {
+		if o.bal(obs.Before, 0, d).Sign() > 0 {
+			hadPrior = true
+		}
+	}
+	if !hadPrior {
+		return nil
+	}
+	strip := func(tr []world.Call) string {
+		var parts []string
+		for _, c := range tr {
+			if c.Kind == "sweep" {
+				continue
+			}
+			parts = append(parts, c.String())
+		}
+		return strings.Join(parts, " | ")
+	}
+	if tw.Class != obs.Recv.Class || strip(tw.Trace) != strip(obs.Trace) || string(tw.Ack) != string(obs.Recv.Ack) {
+		fs = append(fs, o.fail("prior-balance-changes-outcome", fmt.Sprintf("with an emptied orbiter account the same packet gives class %d ack %q calls [%s]; with the prior balance class %d calls [%s]",
+			tw.Class, tw.Ack, strip(tw.Trace), obs.Recv.Class, strip(obs.Trace)), desc))
+		return fs
+	}
+	if !tw.StateAfter.V().Equal(obs.Recv.After.State.V()) {
+		fs = append(fs, o.fail("prior-balance-changes-outcome", "with an emptied orbiter account the same packet leaves different statistics / module state", desc))
+	}
+	if obs.Recv.Success && world.IsOrbiterFlow(op.Pkt) && info.denom != "" {
+		for d := 0; d < nd; d++ {
+			prior := o.bal(obs.Before, 0, d)
+			if o.wr.w.Denoms[d] == info.denom {
+				got := new(big.Int).Sub(o.bal(obs.After, 1, d), o.bal(obs.Before, 1, d))
+				if got.Cmp(prior) != 0 || o.bal(obs.After, 0, d).Sign() != 0 {
+					fs = append(fs, o.fail("prior-balance-not-swept", fmt.Sprintf("the %s %s that were on the orbiter account did not all end on the dust collector (dust collector +%s, orbiter keeps %s)",
+						prior, info.denom, got, o.bal(obs.After, 0, d)), desc))
+				}
+			} else if o.bal(obs.After, 0, d).Cmp(prior) != 0 {
+				fs = append(fs, o.fail("prior-balance-other-denom-moved", fmt.Sprintf("the orbiter balance in %s (not the transferred denomination) changed from %s to %s",
+					o.wr.w.Denoms[d], prior, o.bal(obs.After, 0, d)), desc))
+			}
+		}
+	}
 	return fs
 }
